@@ -769,14 +769,14 @@ func TLV(tag byte, parts ...[]byte) []byte {
 	return out
 }
 
-func Int(v *big.Int) []byte       { return TLV(0x02, encInt(v)) }
-func Enum(v int64) []byte         { return TLV(0x0a, encInt(big.NewInt(v))) }
-func OID(arcs []int) []byte       { return TLV(0x06, encOID(arcs)) }
-func Octets(b []byte) []byte      { return TLV(0x04, b) }
-func GenTimeTLV(s string) []byte  { return TLV(0x18, []byte(s)) }
-func BitString(b []byte) []byte   { return TLV(0x03, []byte{0}, b) }
-func Null() []byte                { return []byte{0x05, 0x00} }
-func Seq(parts ...[]byte) []byte  { return TLV(0x30, parts...) }
+func Int(v *big.Int) []byte         { return TLV(0x02, encInt(v)) }
+func Enum(v int64) []byte           { return TLV(0x0a, encInt(big.NewInt(v))) }
+func OID(arcs []int) []byte         { return TLV(0x06, encOID(arcs)) }
+func Octets(b []byte) []byte        { return TLV(0x04, b) }
+func GenTimeTLV(s string) []byte    { return TLV(0x18, []byte(s)) }
+func BitString(b []byte) []byte     { return TLV(0x03, []byte{0}, b) }
+func Null() []byte                  { return []byte{0x05, 0x00} }
+func Seq(parts ...[]byte) []byte    { return TLV(0x30, parts...) }
 func Ctx(n int, b ...[]byte) []byte { return TLV(0xa0|byte(n), b...) }
 
 // AlgID builds AlgorithmIdentifier{oid, NULL?}.
